@@ -625,6 +625,81 @@ def probe_guard(cfg):
     return table
 
 
+def named_poscars(ck, col):
+    """write a supercell with POSCAR(), rewrite the text with an element-name line and the species blocks in a permuted order (own
+    writer working on the text), read it with POSCAR_occ into a differently occupied supercell: occupation and ordering must be the
+    written ones; the Coq model poscar_read_named gets the name-line -> species map and the blocks (own reader) and must agree"""
+    import itertools
+    from onsager import crystal
+    rng = ck.rng
+    b2 = crystal.Crystal(np.eye(3), [[np.zeros(3)], [np.array([.5, .5, .5])]], chemistry=["A", "B"])
+    hi = crystal.Crystal(np.diag([1., 1., 1.2]), [[np.zeros(3)], [np.array([.5, .5, .5])]], chemistry=["M", "O"])
+    cfgs = [Cfg("B2 'A','B' + solute 'C' 2x1x1", b2, np.diag([2, 1, 1]), (), 1), Cfg("host 'M' + interstitial 'O' + solutes 'X','Y' 2x2x1", hi, np.diag([2, 2, 1]), (1,), 2)]
+    cfgs[0].sup0.definesolute(2, "C"); cfgs[1].sup0.definesolute(2, "X"); cfgs[1].sup0.definesolute(3, "Y")
+    rows, metas = [], []
+    for cfg in cfgs:
+        names = cfg.sup0.chemistry[:cfg.Nchem]
+        for rep in range(ck.n(12, 60)):
+            w = cfg.shell(cfg.sup0.occ.copy(), [[] for _ in range(cfg.Nchem)])
+            for i in rng.sample(range(cfg.N), cfg.N):
+                c = rng.choice([-1] + list(range(cfg.Nchem)) + [cfg.sup0.atomindices[i % cfg.sup0.N][0]] * 2)
+                w.setocc(i, c)
+            wocc, wco = [int(x) for x in w.occ], [list(map(int, l)) for l in w.chemorder]
+            if py_inv(wocc, wco, cfg.N, cfg.Nchem) is not None: continue
+            lines = w.POSCAR("named").split("\n")
+            counts = [int(x) for x in lines[5].split()]
+            if len(counts) != cfg.Nchem or lines[6].strip() != "Direct": continue       # (reported by the write checks)
+            pos = lines[7:7 + sum(counts)]
+            blocks, n = [], 0
+            for k in counts: blocks.append(pos[n:n + k]); n += k
+            present = [c for c in range(cfg.Nchem) if counts[c] > 0]
+            listed = present + [c for c in range(cfg.Nchem) if counts[c] == 0 and rng.random() < 0.4]
+            if not listed: continue
+            orders = list(itertools.permutations(listed)) if len(listed) <= 3 else [tuple(rng.sample(listed, len(listed))) for _ in range(4)]
+            for order in orders:
+                text = "\n".join(lines[:5] + [" ".join(names[c] for c in order), " ".join(str(counts[c]) for c in order), "Direct"] +
+                                 [l for c in order for l in blocks[c]]) + "\n"
+                # the target starts from some other consistent occupation
+                t = cfg.shell(cfg.sup0.occ.copy(), [[] for _ in range(cfg.Nchem)])
+                for i in rng.sample(range(cfg.N), cfg.N // 2): t.setocc(i, rng.randrange(-1, cfg.Nchem))
+                tocc0, tco0 = [int(x) for x in t.occ], [list(map(int, l)) for l in t.chemorder]
+                try:
+                    t.POSCAR_occ(text); exc = None
+                except Exception as e:
+                    exc = repr(e)
+                rocc, rco = [int(x) for x in t.occ], [list(map(int, l)) for l in t.chemorder]
+                col.nodes += 1
+                ck.case(key=("named", cfg.label, wocc, wco, order), nontrivial=list(order) != sorted(order) or len(order) < cfg.Nchem, kind="named-poscar",
+                        sample={"cell": cfg.label, "name_line": [names[c] for c in order], "counts": [counts[c] for c in order], "written_occ": wocc,
+                                "read_occ": rocc} if len(rows) in (3, 40) else None)
+                repd = dict(cfg=cfg.spec(), chemistry=names, name_line=[names[c] for c in order], counts=[counts[c] for c in order], poscar_text=text,
+                            written=dict(occ=wocc, chemorder=wco), read=dict(occ=rocc, chemorder=rco), exception=exc, ops=[["read-named"]])
+                if exc or rocc != wocc or rco != wco:
+                    col.violation("c28-poscar-named", "%s: POSCAR with name line %r (counts %s) of a supercell with occ=%s chemorder=%s is read back as "
+                                  "occ=%s chemorder=%s%s" % (cfg.label, " ".join(names[c] for c in order), [counts[c] for c in order], wocc, wco, rocc, rco,
+                                                              " (%s)" % exc if exc else ""), repd)
+                # the model: blocks as site lists (own reader of the block lines) + name line -> species map
+                sites = []
+                for c in order:
+                    bl = []
+                    for l in blocks[c]:
+                        d = cfg.sup0.pos - np.array([float(x) for x in l.split()[:3]]); d -= np.round(d)
+                        bl.append(int(np.argmin((d * d).sum(axis=1))))
+                    sites.append(bl)
+                rows.append("sc_eqb (fst (poscar_read_named (guard_declared %d) %s %s (mkSC %s %s))) (mkSC %s %s)" %
+                            (cfg.Nchem, zl(order), zll(sites), zl(tocc0), zll(tco0), zl(rocc), zll(rco)))
+                metas.append(repd)
+    ck.extra["named_poscar_reads"] = len(rows)
+    for a in range(0, len(rows), 400):
+        out = ck.coq_cases("named%d" % a, "Eval vm_compute in (falses [%s] 0)." % ";\n ".join(rows[a:a + 400]), IMPORTS)
+        ev = sclib.parse_evals(out)
+        if len(ev) != 1: raise CoqFailure("unexpected model output: " + out[:300])
+        for k in sclib.nats_of(ev[0]):
+            m = metas[a + k]
+            col.violation("c28-poscar-named-model", "%s: POSCAR_occ on a file with name line %r gives occ=%s chemorder=%s, the model poscar_read_named differs" %
+                          (m["cfg"]["label"], " ".join(m["name_line"]), m["read"]["occ"], m["read"]["chemorder"]), m)
+
+
 WITNESSES = [  # the histories of theorem C28_source_guard_refuted, replayed on the implementation
     ("undeclared species -2 is accepted and breaks the bookkeeping", 0, [("set", 0, -2)]),
     ("declared second solute is rejected", 2, [("set", 0, 2)]),
@@ -682,6 +757,13 @@ def run(ck):
             col.violation("c28-poscar-int-chemistry", "POSCAR() of a supercell of a crystal made by addbasis() without species names raises %r "
                           "(chemistry=%r)" % (e, acrys.chemistry),
                           dict(cfg=probe.spec(), chemistry=[repr(x) for x in acrys.chemistry], ops=[["write"]], exception=repr(e)))
+
+    # 0c. POSCAR files with a VASP5 element-name line: species blocks in every order, absent species left out or listed with 0
+    try:
+        named_poscars(ck, col)
+    except CoqFailure as e:
+        ck.broken_proof = "correspondence Model/Supercell.poscar_read_named: %s" % e
+        ck.note("CORRESPONDENCE FAILED: " + str(e)[:1500])
 
     # 1. bounded-exhaustive sequences on real objects
     dfull, dred = (3, 4) if ck.quick else (4, 5)
